@@ -63,7 +63,7 @@ def _inp(run, **extra):
 
 
 def analyse(ctx, run, bools, reports):
-    inputs, outputs, iterations = mc.parse_settings(run.settings)
+    inputs, outputs, iterations = mc.parse_settings(run.settings, run.base)
     names = [n for n, w, _ in inputs if mc.dist_of(w)]
     part = f'{run.program}-rows'
     if run.result_text is None:
